@@ -42,6 +42,27 @@ def prepare():
     """compile IR and the native replay library once, before worker processes start"""
     build_ir()
     build_native()
+    _prune_cache()
+
+
+def _prune_cache(keep_ir=4, keep_san=150):
+    """scratch hygiene: the cache is keyed by source hashes, so entries of earlier source states only cost disk space"""
+    import shutil
+    for sub, keep in (('ir', keep_ir), ('san', keep_san), ('native', keep_ir)):
+        d = os.path.join(CACHE, sub)
+        try:
+            ents = sorted((os.path.getmtime(os.path.join(d, e)), e) for e in os.listdir(d))
+        except OSError:
+            continue
+        cur = c_sources_hash()
+        for _, e in ents[:-keep] if len(ents) > keep else []:
+            if e.startswith(cur):
+                continue
+            path = os.path.join(d, e)
+            try:
+                shutil.rmtree(path) if os.path.isdir(path) else os.unlink(path)
+            except OSError:
+                pass
 
 
 def build_ir(olevel='-O0'):
